@@ -51,3 +51,13 @@ CHECKS["C03"] = dict(level=EX, engine="E3", design_ref="DESIGN.md section 3 C03"
    technique="full Cartesian product of attribute assignments per rule over the abstraction {absent, each listed value, unlisted value} x foreign attribute x insertion orders",
    text="The abstraction named in the property's quantifier is finite and is enumerated completely for all rules, including all insertion orders for small assignments, in both modes; collecting-mode errors are compared as a multiset of (code, attribute) with an independent reading of the table; introspection queries are compared with the same table.",
    note="Attribute values are strings; content and children are kept valid so any error is an attribute error.")
+
+CHECKS["C04"] = dict(level=EX, engine="E3", design_ref="DESIGN.md section 3 C04",
+   technique="deviation-bounded exhaustive enumeration of trees (per-element products, all trees within d mutations of valid bases, deep chains) through validate.node/validate.tree in both modes",
+   text="Every element name (known and unknown) is combined with all short child sequences x content menu x attribute menu; every tree within 1 (2 on small bases) mutation of a generated valid tree per element/child/DFA-transition and of tests/data/eml.xml is built; chains to depth 100. Each is validated four ways; only rule errors may escape, collecting mode may not raise, entries must be well-formed and errs empty exactly when fail-fast succeeds. Evidence lists every error code and exception class driven.",
+   note="Menus and the deviation bound d limit the space (a defect needing three simultaneous faults on a large tree is out of reach); content is Unicode scalar strings.")
+
+CHECKS["C05"] = dict(level=EX, engine="E3", design_ref="DESIGN.md section 3 C05",
+   technique="deviation-bounded exhaustive tree enumeration with a differential oracle (validate.tree vs per-node validate.node in document order) and a metadata-content menu",
+   text="On every tree within d mutations of the bases the whole-tree result is compared with the per-node results entry by entry (identity of the offending node, code, message, details; first failing node in fail-fast mode). Under every metadata node each subtree of a menu is hung and outcomes are compared across the menu, with exactly one extra MAX_OCCURRENCE_EXCEEDED for two or more children.",
+   note="validate.node is the reference here (its own correctness is C01-C03); bases and mutation menu as in C04.")
